@@ -192,7 +192,7 @@ theorem step_message_class (cfg : Config) (s : State) (c : Nat) (msg : Option Js
   split at h
   · simp at h
   · rename_i hlive
-    simp only [hlive, if_false] at ⊢
+    simp only [hlive] at ⊢
     obtain ⟨new, hout, hrt, hcl⟩ := parseMessage_class cfg s.peers c msg (mkCtx s o) (RouteStep.refl ..)
     cases hok : (parseMessage cfg (mkCtx s o) c msg).2 with
     | true =>
@@ -205,7 +205,7 @@ theorem step_message_class (cfg : Config) (s : State) (c : Nat) (msg : Option Js
       obtain ⟨new2, hout2, hgone, hcl2⟩ := closePeer_class s.peers c _ hrt
       rw [hout2, hout] at h
       simp only [mkCtx, List.append_nil, List.mem_cons, List.mem_append] at h
-      rcases h with h | h | h
+      rcases h with (h | h) | h
       · cases h
       · rcases hcl2 d j b h with h' | h'
         · exact Or.inl (Or.inl h')
@@ -223,7 +223,7 @@ theorem step_disconnect_class (cfg : Config) (s : State) (c : Nat) (o : Oracle)
   split at h
   · simp at h
   · rename_i hlive
-    simp only [hlive, if_false] at ⊢
+    simp only [hlive] at ⊢
     obtain ⟨new2, hout2, hgone, hcl2⟩ := closePeer_class s.peers c (mkCtx s o) (RouteStep.refl ..)
     simp only [List.mem_reverse] at h
     rw [hout2] at h
@@ -254,7 +254,7 @@ theorem step_timer_class (cfg : Config) (s : State) (t : Nat) (o : Oracle)
     simp only [mkCtx, List.reverse_cons, List.reverse_nil, List.nil_append, List.cons_append, List.mem_cons,
       Obs.send.injEq, List.mem_nil_iff, or_false] at h ⊢
     rcases h with ⟨rfl, rfl, rfl⟩ | h
-    · exact ⟨p, r, oid, hp, hrp, htim, rfl, ho, hok, rfl, by rw [hst], rfl⟩
+    · exact ⟨p, r, oid, hp, hrp, htim, rfl, ho, hok, rfl, congrArg State.peers hst, rfl⟩
     · cases h
 
 end Cjet.Daemon.C02
